@@ -46,7 +46,7 @@ def run(report: Report, tier, seed):
     n = 24 if tier == "quick" else 200
     items = [["gen", seed * 100003 + 88000 + i, [4, 6, 8, 9, 10][i % 5]] for i in range(n)] + \
             [["abi", k, v] for k in range(2) for v in (6, 8, 10)] + [["router", k, v] for k in range(1) for v in (6, 8, 10)] + \
-            [["collide", k, v] for k in range(3) for v in (5, 6, 10)]
+            [["collide", k, v] for k in range(3) for v in (5, 6, 10)] + [["routerfail", k, v] for k in range(2) for v in (7, 8, 10)]
     histories = {
         "fresh": [],
         "after-successful": ["ok", "router", "tmpl"],
@@ -61,9 +61,10 @@ def run(report: Report, tier, seed):
     for name, h in histories.items():
         if name == "fresh":
             continue
-        jobs.append((f"history={name}", {"items": items, "history": h}, 0))
+        jobs.append((f"history={name}", {"items": items, "history": h, "fail_first": True}, 0))
     # different item order (other programs compiled earlier in the process)
     jobs.append(("reversed-order", {"items": items[::-1], "history": []}, 7))
+    jobs.append(("history=own-failed-compile", {"items": [i for i in items if i[0] == "routerfail"], "history": [], "fail_first": True}, 0))
     with ThreadPoolExecutor(max_workers=8) as ex:
         results = list(ex.map(lambda j: run_worker(j[1], j[2]), jobs))
     ref = results[0]
